@@ -652,7 +652,12 @@ impl Shared {
                 let timers_allowed = !(self.cfg.broker.fifo && !opts.is_empty());
                 if let Some(t) = wake.filter(|_| timers_allowed) {
                     if t <= now {
-                        opts.push((E::Repoll, false));
+                        // a deadline that has already passed makes the client poll again at once (it spins
+                        // until something happens): offered only when nothing else can happen, and the
+                        // spinning takes time
+                        if opts.is_empty() {
+                            opts.push((E::Repoll, false));
+                        }
                     } else {
                         opts.push((E::Advance(t), false));
                         if self.explore() && self.cfg.late_timer_ms > 0 {
@@ -723,7 +728,10 @@ impl Shared {
                         self.log(|| format!("  env: clock -> {} ms (with data)", clock::now_ms()));
                         true
                     }
-                    E::Repoll => true,
+                    E::Repoll => {
+                        clock::set(clock::now() + 100 * clock::TICKS_PER_MS);
+                        true
+                    }
                     E::Advance(t) | E::AdvanceLate(t) => {
                         clock::set(t);
                         self.log(|| format!("  env: clock -> {} ms", clock::now_ms()));
@@ -1433,6 +1441,31 @@ impl<'v> World<'v> {
             let decided = self.decide_op(&menu);
             let Some((op, skip)) = decided else {
                 self.log(|| "program: end".to_string());
+                if self.cfg.drain_until_dead && conn.is_connected() {
+                    if !self.sh.borrow().draining {
+                        self.begin_drain();
+                    }
+                    for _ in 0..16 {
+                        self.sh.borrow_mut().op_calls = 0;
+                        self.sh.borrow_mut().oracle.op_begin("poll", None);
+                        self.log(|| "api: poll".to_string());
+                        let res = match self.drive(conn.poll(), Some(id), true) {
+                            None => Res::Cancelled,
+                            Some(Ok(None)) => Res::Ok,
+                            Some(Ok(Some(m))) => {
+                                let m = inmsg_of(&m);
+                                self.sh.borrow_mut().oracle.delivered(m);
+                                Res::OkMsg
+                            }
+                            Some(Err(e)) => Res::from_err(&e),
+                        };
+                        self.log(|| format!("api: poll -> {:?}", res));
+                        self.sh.borrow_mut().oracle.op_end(res.rejected(), res == Res::Cancelled);
+                        if res == Res::Cancelled || res.fatal() || !conn.is_connected() {
+                            break;
+                        }
+                    }
+                }
                 if self.cfg.drain {
                     let done = conn.is_connected() && self.drain_connected(conn, id, false);
                     if !done {
@@ -1677,6 +1710,28 @@ impl<'v> World<'v> {
                         &format!("{}-{:?}", kinds.into_iter().collect::<Vec<_>>().join("+"), res),
                         format!("{} failed with {:?} while acknowledgements are owed to the broker: they must go out even when the transmit arena or the in-flight list is full", op.name(), res),
                     );
+                }
+                if res == Res::PacketTooLarge {
+                    // poll / drive may give up with packet-too-large only because something that has to go out
+                    // on this connection exceeds its Maximum Packet Size: a retained packet awaiting replay.
+                    // Acknowledgements and PUBRELs are at most 5 bytes.
+                    let mut sh = self.sh.borrow_mut();
+                    let lim = sh.oracle.conns[id].max_packet;
+                    let oversized = sh.oracle.conns[id].must_replay.iter().any(|(seq, rel)| {
+                        !*rel && lim.is_some_and(|m| sh.oracle.reqs[*seq as usize].first.as_ref().is_some_and(|f| f.len() as u64 > m as u64))
+                    });
+                    if lim.is_none_or(|m| m >= 5) && !oversized {
+                        let rels = sh.oracle.conns[id].must_replay.iter().any(|(_, rel)| *rel);
+                        let d = format!(
+                            "{} failed with PacketTooLarge although nothing that has to be sent on connection {} exceeds its Maximum Packet Size {:?}",
+                            op.name(),
+                            id,
+                            lim
+                        );
+                        sh.oracle.flag("C03", if rels { "X3-pubrel-refused-although-it-fits" } else { "X3-fitting-packet-refused" }, op.name(), d.clone());
+                        sh.oracle.flag("C02", "Q1-fitting-packet-refused", op.name(), d.clone());
+                        sh.oracle.flag("C16", "P1-fitting-packet-refused", op.name(), d);
+                    }
                 }
                 if res == Res::InflightExhausted {
                     self.sh.borrow_mut().oracle.flag(
@@ -2166,6 +2221,9 @@ fn compare_with_twin(cfg: &Rc<Cfg>, r: &mut RunResult, record: bool) {
             }
             if r.final_state != t.final_state {
                 flag("C13", "leftover-state-differs", &ctx, format!("after cancelling {:?} and the same benign continuation the session ends with (quiescent, retained, awaiting PUBCOMP, queued acks, inbound QoS 2 pending, send quota) = {:?}, the uncancelled run with {:?}", ops, r.final_state, t.final_state));
+            }
+            if cfg.drain_until_dead && r.obs.pings != t.obs.pings {
+                flag("C13", "pingreqs-differ", &ctx, format!("after cancelling {:?}: {} PINGREQs before the unanswered keep-alive ended the connection, uncancelled run {}", ops, r.obs.pings, t.obs.pings));
             }
             if r.obs.delivered != t.obs.delivered {
                 flag("C13", "deliveries-differ", &ctx, format!("after cancelling {:?}: delivered {:?}, uncancelled run {:?}", ops, r.obs.delivered, t.obs.delivered));
